@@ -21,6 +21,29 @@ func init() {
 
 func runValDecision(c *core.Ctx) {
 	e := EnvOf(c.Prog)
+	// VClock.Merge: its parameter, and the variables that receive a looked-up component (first result of a `.Get(` call)
+	var vclockMergeParam *types.Var
+	vclockLookupVars := map[types.Object]bool{}
+	if fn := e.Ix.LookupMethod(an.PkgTLA, "VClock", "Merge"); fn != nil && fn.Body() != nil {
+		info := fn.Pkg.Info
+		if ps := fn.Decl.Type.Params.List; len(ps) == 1 && len(ps[0].Names) == 1 {
+			vclockMergeParam, _ = info.Defs[ps[0].Names[0]].(*types.Var)
+		}
+		ast.Inspect(fn.Body(), func(m ast.Node) bool {
+			as, ok := m.(*ast.AssignStmt)
+			if !ok || len(as.Lhs) != 2 || len(as.Rhs) != 1 {
+				return true
+			}
+			if call, isCall := an.Unparen(as.Rhs[0]).(*ast.CallExpr); isCall {
+				if sel, isSel := an.Unparen(call.Fun).(*ast.SelectorExpr); isSel && sel.Sel.Name == "Get" {
+					if o := an.ObjOf(info, as.Lhs[0]); o != nil {
+						vclockLookupVars[o] = true
+					}
+				}
+			}
+			return true
+		})
+	}
 	retBool := func(v bool) func(*types.Info, ast.Node) bool {
 		return func(info *types.Info, n ast.Node) bool {
 			r, ok := n.(*ast.ReturnStmt)
@@ -105,7 +128,12 @@ func runValDecision(c *core.Ctx) {
 		// vector clocks
 		{fn: "VClock.Merge", key: "empty-left", why: "merging into an empty clock yields the other", find: func(info *types.Info, n ast.Node) bool {
 			r, ok := n.(*ast.ReturnStmt)
-			return ok && len(r.Results) == 1 && an.ObjOf(info, r.Results[0]) != nil && an.ObjOf(info, r.Results[0]).Name() == "other"
+			if !ok || len(r.Results) != 1 {
+				return false
+			}
+			// the parameter (the other clock), whatever it is called
+			v, isVar := an.ObjOf(info, r.Results[0]).(*types.Var)
+			return isVar && vclockMergeParam != nil && v == vclockMergeParam
 		}, bools: []string{"$.clock==nil", "other.clock==nil"}, ref: func(a dtAtoms) bool { return a.B("$.clock==nil") }},
 		{fn: "VClock.Merge", key: "keeps-larger-component", why: "the merged component is the maximum: an entry is overwritten only by a strictly larger one", find: func(info *types.Info, n ast.Node) bool {
 			as, ok := n.(*ast.AssignStmt)
@@ -118,7 +146,7 @@ func runValDecision(c *core.Ctx) {
 			}
 			sel, ok := an.Unparen(call.Fun).(*ast.SelectorExpr)
 			return ok && sel.Sel.Name == "Set"
-		}, bools: []string{"$.clock==nil", "other.clock==nil", "it.Done()", "ok"}, ints: map[string]string{"idx1Val": "", "idx2Val": "", "self.clock.Len()": "", "other.clock.Len()": ""},
+		}, bools: []string{"$.clock==nil", "other.clock==nil", "it.Done()", "ok"}, ints: map[string]string{"idx1Val": "", "idx2Val": ""}, existsOthers: true,
 			ref: func(a dtAtoms) bool {
 				// idx2Val is reset to 0 when the key is absent: compare with the effective value
 				eff := a.I("idx2Val")
@@ -130,8 +158,17 @@ func runValDecision(c *core.Ctx) {
 			}},
 		{fn: "VClock.Merge", key: "absent-reads-zero", why: "a component absent from the accumulator counts as 0", find: func(info *types.Info, n ast.Node) bool {
 			as, ok := n.(*ast.AssignStmt)
-			return ok && len(as.Lhs) == 1 && len(as.Rhs) == 1 && as.Tok == token.ASSIGN && an.ObjOf(info, as.Lhs[0]) != nil && an.ObjOf(info, as.Lhs[0]).Name() == "idx2Val"
-		}, bools: []string{"$.clock==nil", "other.clock==nil", "it.Done()", "ok"}, ints: map[string]string{"self.clock.Len()": "", "other.clock.Len()": ""},
+			if !ok || len(as.Lhs) != 1 || len(as.Rhs) != 1 || as.Tok != token.ASSIGN {
+				return false
+			}
+			// `x = 0` for the variable that received the looked-up component (first result of a Get)
+			tv := info.Types[as.Rhs[0]]
+			if tv.Value == nil || tv.Value.ExactString() != "0" {
+				return false
+			}
+			o := an.ObjOf(info, as.Lhs[0])
+			return o != nil && vclockLookupVars[o]
+		}, bools: []string{"$.clock==nil", "other.clock==nil", "it.Done()", "ok"}, existsOthers: true,
 			ref: func(a dtAtoms) bool {
 				return !a.B("$.clock==nil") && !a.B("other.clock==nil") && !a.B("it.Done()") && !a.B("ok")
 			}},
